@@ -834,7 +834,10 @@ input::
                 if t is None:
                     t = cn.impose_at(*to.select_params(self,collapses[k]))
                 else:
-                    t = cn.impose_at(collapses[k],t)
+                    i = tuple(collapses[k])
+                    if hasattr(t, '__len__'): # a target per parameter
+                        t = [t[j] for j in i] # the targets of the collapsed
+                    t = cn.impose_at(i,t)
                 conditions.append(t)
             elif k.startswith('CollapseAs'):
                 t = state[k]
